@@ -132,7 +132,7 @@ func runSerialCollect(sc int, c *serialCase, emit func(serialEv)) {
 		select {
 		case <-entered:
 			// positive deadline: every other connection makes progress while this handler is held
-			deadline := time.Now().Add(5 * time.Second)
+			deadline := time.Now().Add(2 * time.Second)
 			for {
 				ok, k := allOthersDone()
 				if ok {
@@ -153,11 +153,11 @@ func runSerialCollect(sc int, c *serialCase, emit func(serialEv)) {
 			// connection has arrived in full; its handler must not start
 			time.Sleep(30 * time.Millisecond)
 			close(gate)
-		case <-time.After(5 * time.Second):
+		case <-time.After(2 * time.Second):
 			close(gate)
 		}
 	}
-	deadline := time.Now().Add(5 * time.Second)
+	deadline := time.Now().Add(2 * time.Second)
 	for time.Now().Before(deadline) {
 		mu.Lock()
 		all := true
@@ -214,8 +214,8 @@ func Serial(a Args) error {
 	if err != nil {
 		return err
 	}
-	// scenarios are independent; run 16 at a time, each emitting its events as one block
-	sem := make(chan struct{}, 16)
+	// scenarios are independent; run 32 at a time, each emitting its events as one block
+	sem := make(chan struct{}, 32)
 	var wg sync.WaitGroup
 	var emu sync.Mutex
 	for i := range cases {
